@@ -16,12 +16,14 @@ package fasthttp
 // setSpecialHeader dispatches on the name; its Set-Cookie / Connection / Trailer branches store the value as given.
 // The bodies use []argsKV element pointers and are not verified here (trusted); the modifies lists were read off the code.
 //@ func ResponseHeader.setSpecialHeader
+//@   property C05
 //@   trusted
 //@   requires[clean-key] crlffree(key, len(key))
 //@   requires[clean-value] crlffree(value, len(value))
 //@   modifies h.contentType, h.contentLength, h.contentLengthBytes, h.contentEncoding, h.server, h.cookies, h.connectionClose, h.h, h.trailer
 //@   ensures crlffree(h.contentType, len(h.contentType)) && crlffree(h.contentEncoding, len(h.contentEncoding)) && crlffree(h.server, len(h.server))
 //@ func RequestHeader.setSpecialHeader
+//@   property C05
 //@   trusted
 //@   requires[clean-key] crlffree(key, len(key))
 //@   requires[clean-value] crlffree(value, len(value))
